@@ -172,4 +172,28 @@ def initState : State N A → List (N × A) → State N A
     | (s', .error _) => s'
     | (s', .ok _) => initState s' es
 
+/-- a Namer SUBCLASS applying a whole address book (`Crewer.serviceRxMemos` on a BOK memo:
+`for name, addr in load.items(): if name != self.name: self.addNameAddr(name=name, addr=addr)`): entry by entry
+through `addNameAddr`; the first exception propagates out and the entries before it stay -/
+def book (s : State N A) (self : N) : List (N × A) → State N A × Except Exn (Out N A)
+  | [] => (s, .ok .unit)
+  | (n, a) :: es =>
+    if n = self then book s self es
+    else match add s n a with
+      | (s', .error e) => (s', .error e)
+      | (s', .ok _) => book s' self es
+
+/-- what a history of a subclass consists of: the inherited operations and whole books -/
+inductive Act (N A : Type)
+  | op (o : Op N A)
+  | book (self : N) (es : List (N × A))
+
+def act (s : State N A) : Act N A → State N A × Except Exn (Out N A)
+  | .op o => step s o
+  | .book self es => book s self es
+
+def runActs (s : State N A) : List (Act N A) → State N A
+  | [] => s
+  | a :: as => runActs (act s a).1 as
+
 end Hio.Namer
